@@ -246,9 +246,11 @@ def gen_tables(tier, rng):
         out.append("refwrapops %d %d" % (rng.randint(-1000, 1000), rng.randint(-1000, 1000)))
         out.append("refwrapstd %d" % rng.randint(-1000, 1000))
         out.append("frefops %d" % rng.randint(-1000, 1000))
+        out.append("frefptr %d" % rng.randint(-1000, 1000))
         out.append("notfnstatic %d" % rng.randint(-3, 3))
         out.append("voidret %d" % rng.randint(-1000, 1000))
         out.append("makepairref %d %d" % (rng.randint(-1000, 1000), rng.randint(-1000, 1000)))
+    out.append("xfer")
     # tuple_cat result types (after the fix of the CTAD-built result) and tuple_element
     for k in R4:
         out.append(f"catkind {k}")
